@@ -196,6 +196,17 @@ CHECKS = {
             'gzip: lossless, Content-Length == bytes sent, Vary, never sent to a client that refuses it.',
             'Trusted: the baseline application (differential oracle), gzip module, a small Accept-Encoding reading.',
             'DESIGN.md section 5, C15'),
+    'C17': ('E1-product-enumerator',
+            'complete expansion of a value grammar to a nesting bound x renderers x format x Accept on the real '
+            'renderers; statement-derived oracle plus fresh-renderer differential',
+            'About 300 values (24 atoms incl. JSON-like/HTML-like/non-ASCII text, bytes, numbers, None, datetime, '
+            'to_dict/asdict/isoformat objects, plain objects, generators, a Response; dict/list/tuple/set/frozenset '
+            'containers to depth 3) x {render_basic with 3 formats x 8 Accept headers, render_json, render_json_dev, '
+            'streaming JSON, JSONP with/without callback}; status 200, content type by value kind, JSON parses back to '
+            'the normalised value, dev-mode reprs, JSONP wrapping, HTML tables for tabular shapes only, and every HTML '
+            'response of the shared render_basic equals that of a freshly constructed renderer.',
+            'Trusted: the normalisation function norm() and ref/negotiate.py; non-tabular HTML is outside (O10).',
+            'DESIGN.md section 5, C17'),
 }
 
 NOT_YET = 'check not built yet in this revision of /verif (planned: bounded exhaustive exploration, see DESIGN.md section 5)'
